@@ -384,8 +384,10 @@ fn do_resolve<Fd: AsFd, P: AsRef<Path>>(
                     // (which only does this for WALK_TRAILING lookups), the
                     // fs.protected_symlinks restriction only applies to links
                     // in a trailing position -- the final component of the
-                    // path, or of the body of such a trailing link.
-                    if remaining_components.is_empty() {
+                    // path, or of the body of such a trailing link. Trailing
+                    // slashes do not change that ("dir/link/" is still a
+                    // trailing lookup of "link" for the kernel).
+                    if remaining_components.iter().all(|part| part.is_empty()) {
                         // MSRV(1.69): Remove &*.
                         may_follow_link(&*current, &next).with_wrap(|| {
                             format!(
